@@ -1,4 +1,6 @@
 import BoltonsVerif.C17.Proofs2
+import BoltonsVerif.C17.Readers
+import BoltonsVerif.C17.ArgsProofs
 import BoltonsVerif.C17.HeapProofs
 /-
 C17 — property theorems (statements + short derivations from `Proofs.lean`, and
@@ -72,6 +74,42 @@ theorem oto_setitem_spec (s : OTO α) (w : s.WF) (k v a b : α) :
     (a, b) ∈ (s.setitem k v).fwd ↔ (a = k ∧ b = v) ∨ ((a, b) ∈ s.fwd ∧ a ≠ k ∧ b ≠ v) := by
   rw [mem_iff_lookup _ (w.setitem k v).nf, mem_iff_lookup _ w.nf, OTO.setitem_fwd w]
   grind
+
+/-! mutations made through `.inv` are the transposed mutations made through the object (round 3) -/
+
+/-- `x.inv[v] = k` holds the same pairs afterwards as `x[k] = v` -/
+theorem oto_setitem_through_inv (s : OTO α) (w : s.WF) (k v a b : α) :
+    (a, b) ∈ (s.stepSide true (.setitem v k)).1.fwd ↔ (a, b) ∈ (s.setitem k v).fwd := by
+  have wf := w.flip
+  have w2 := wf.setitem v k
+  show (a, b) ∈ (s.flip.setitem v k).inv ↔ _
+  rw [mem_iff_lookup _ w2.ni, ← w2.inverse b a, ← mem_iff_lookup _ w2.nf, oto_setitem_spec s.flip wf v k b a,
+    oto_setitem_spec s w k v a b]
+  show (b = v ∧ a = k) ∨ ((b, a) ∈ s.inv ∧ b ≠ v ∧ a ≠ k) ↔ _
+  rw [mem_iff_lookup _ w.ni, ← w.inverse a b, ← mem_iff_lookup _ w.nf]
+  constructor
+  · rintro (⟨h1, h2⟩ | ⟨h1, h2, h3⟩)
+    · exact Or.inl ⟨h2, h1⟩
+    · exact Or.inr ⟨h1, h3, h2⟩
+  · rintro (⟨h1, h2⟩ | ⟨h1, h2, h3⟩)
+    · exact Or.inl ⟨h2, h1⟩
+    · exact Or.inr ⟨h1, h3, h2⟩
+/-- `del x.inv[v]` is `del x[k]` for the key `k` that holds `v` (literally the same two dicts); KeyError when no key does -/
+theorem oto_delitem_through_inv (s : OTO α) (w : s.WF) (v : α) :
+    (∀ k, lookup v s.inv = some k → (s.stepSide true (.delitem v)).1 = (s.delitem k).1 ∧
+      (s.stepSide true (.delitem v)).2 = .none) ∧
+    (lookup v s.inv = none → s.stepSide true (.delitem v) = (s, .err .KeyError)) := by
+  constructor
+  · intro k hk
+    have hf : lookup k s.fwd = some v := (w.inverse k v).2 hk
+    simp [OTO.stepSide, OTO.step, OTO.delitem, OTO.flip, hk, hf]
+  · intro hn
+    simp [OTO.stepSide, OTO.step, OTO.delitem, OTO.flip, hn]
+/-- non-vacuity for the two theorems above: a state with both branches (value 4 held by key 3, value 9 by nobody) -/
+example : (OTO.ofPairs [(1, 2), (3, 4)] : OTO Nat).WF ∧
+    lookup 4 (OTO.ofPairs [(1, 2), (3, 4)] : OTO Nat).inv = some 3 ∧ lookup 9 (OTO.ofPairs [(1, 2), (3, 4)] : OTO Nat).inv = none ∧
+    ((OTO.ofPairs [(1, 2), (3, 4)] : OTO Nat).stepSide true (.setitem 2 3)).1 = ⟨[(3, 2)], [(2, 3)]⟩ :=
+  ⟨OTO.WF.ofPairs _, by decide, by decide, by decide⟩
 
 /-- a mutator leaves every other instance exactly as it was; constructors / copy only append -/
 theorem oto_isolation (regs regs' : List (OTO α)) (c : OtoCmd α) (ret : Ret α)
@@ -149,6 +187,18 @@ theorem oto_ctor_values_kept (ps : List (α × α)) (k v : α)
     (h : lookup k (putAll ([] : Dict α α) ps) = some v) : ∃ k', lookup k' (OTO.ofPairs ps).fwd = some v :=
   OTO.ofPairs_values_kept ps k v h
 
+/-- the correspondence's order-agnostic constructor (the driver is told which items the implementation's instance
+    holds; used for `OneToOne(other, **kw)` with colliding values, where the surviving key depends on the iteration
+    order of `other`): whatever it is told, the instance satisfies the invariant, holds only items of `dict(pairs)` and
+    loses no value of it; an outcome that is not admissible falls back to `ofPairs` -/
+theorem oto_ctor_any_spec (ps hint : List (α × α)) :
+    (OTO.ofPairsAs ps hint).WF ∧
+    (∀ k v, lookup k (OTO.ofPairsAs ps hint).fwd = some v → lookup k (putAll ([] : Dict α α) ps) = some v) ∧
+    (∀ k v, lookup k (putAll ([] : Dict α α) ps) = some v → ∃ k', lookup k' (OTO.ofPairsAs ps hint).fwd = some v) ∧
+    (OTO.admissible ps hint = false → OTO.ofPairsAs ps hint = OTO.ofPairs ps) := by
+  refine ⟨OTO.WF.ofPairsAs ps hint, (OTO.ofPairsAs_spec ps hint).1, (OTO.ofPairsAs_spec ps hint).2, fun h => ?_⟩
+  simp [OTO.ofPairsAs, h]
+
 /-- `OneToOne.unique(pairs)` raises ValueError exactly when some value sits under two keys of `dict(pairs)`;
     otherwise it is the plain constructor and holds `dict(pairs)` itself -/
 theorem oto_unique_spec (ps : List (α × α)) :
@@ -159,6 +209,10 @@ theorem oto_unique_spec (ps : List (α × α)) :
 /-! non-vacuity: a history with overwrite + eviction through both sides, update from the own inverse, copy -/
 example : OTO.uniqueOfPairs [(1, 2), (3, 4), (5, 2)] = (none : Option (OTO Nat)) ∧
     (OTO.uniqueOfPairs [(1, 2), (3, 4), (1, 5)] : Option (OTO Nat)) = some ⟨[(1, 5), (3, 4)], [(5, 1), (4, 3)]⟩ := by decide
+/-- `oto_ctor_any_spec`: value 2 sits under keys 1 and 5; an implementation that kept key 1 is accepted, one that
+    reports a pair `dict(pairs)` does not have is not (fallback: key 5 keeps it) -/
+example : (OTO.ofPairsAs [(1, 2), (3, 4), (5, 2)] [(3, 4), (1, 2)] : OTO Nat) = ⟨[(3, 4), (1, 2)], [(4, 3), (2, 1)]⟩ ∧
+    (OTO.ofPairsAs [(1, 2), (3, 4), (5, 2)] [(3, 4), (7, 2)] : OTO Nat) = ⟨[(5, 2), (3, 4)], [(2, 5), (4, 3)]⟩ := by decide
 /-- the hypothesis of `oto_ctor_values_kept`: value 2 sits under keys 1 and 5; key 5 keeps it -/
 example : lookup 1 (putAll ([] : Dict Nat Nat) [(1, 2), (3, 4), (5, 2)]) = some 2 ∧
     lookup 5 (OTO.ofPairs [(1, 2), (3, 4), (5, 2)] : OTO Nat).fwd = some 2 := by decide
@@ -174,11 +228,66 @@ example : (OTO.ofPairs [(1, 2), (3, 4), (5, 2)] : OTO Nat) = ⟨[(5, 2), (3, 4)]
 example : ((OTO.ofPairs [(1, 2), (3, 4)] : OTO Nat).update [(1, 4), (3, 9), (7, 2)]).fwd = [(1, 4), (3, 9), (7, 2)]
     ∧ ([(1, 4), (3, 9), (7, 2)].map Prod.fst).Nodup ∧ ([(1, 4), (3, 9), (7, 2)].map Prod.snd).Nodup := by decide
 
+/-! ## OneToOne, caller level (`Args.lean`, round 3): arguments as the caller built them
+
+dict / OrderedDict / keyword arguments hold a key once (first position, last value); a one-shot iterator is an object
+the caller may keep, consume from and pass again; the callee makes ONE pass over its argument. -/
+
+/-- MAIN at caller level: after any history of constructors / `unique` / `copy` / mutators / `update` and `|=` with
+    dict, pair-list, fresh or held one-shot iterator, another instance (either side, itself included) and keyword
+    arguments - with iterators created, partly consumed by the caller and passed again in between - every instance
+    satisfies the invariant, so both sides hold exactly the same pairs, transposed -/
+theorem otoA_invariant (cmds : List (OtoCmdA α)) (st : OtoSt α) (h : otoRunA OtoSt.empty cmds = some st) :
+    ∀ s ∈ st.regs, s.WF ∧ ∀ k v, (k, v) ∈ s.fwd ↔ (v, k) ∈ s.inv := by
+  obtain ⟨cs', hcs'⟩ := otoRunA_lower cmds h
+  intro s hs
+  exact ⟨oto_invariant cs' st.regs hcs' s hs, oto_exact_inverses cs' st.regs hcs' s hs⟩
+
+/-- a one-shot iterator gives what it has left to the first pass made over it, is empty afterwards (a second pass over
+    the same object gets nothing), and no other iterator is touched -/
+theorem otoA_iter_one_shot (st : OtoSt α) (i : Nat) (ps : List (α × α)) (its : List (List (α × α)))
+    (h : takeArg st (.iter i) = some (ps, its)) :
+    st.iters[i]? = some ps ∧ its[i]? = some [] ∧ (∀ j, j ≠ i → its[j]? = st.iters[j]?) ∧
+    takeArg ⟨st.regs, its⟩ (.iter i) = some ([], its) :=
+  takeArg_iter_one_shot st i ps its h
+
+/-- a dict / OrderedDict / keyword argument delivers each key of the raw pairs once, with the last value written -/
+theorem otoA_dict_arg (st : OtoSt α) (raw : List (α × α)) :
+    takeArg st (.dict raw) = some (putAll [] raw, st.iters) ∧ NodupKeys (putAll ([] : Dict α α) raw) ∧
+    (∀ k, k ∈ keys (putAll ([] : Dict α α) raw) ↔ k ∈ keys raw) ∧
+    (∀ (raw' : List (α × α)) k v a, lookup a (putAll ([] : Dict α α) (raw' ++ [(k, v)]))
+      = if a = k then some v else lookup a (putAll ([] : Dict α α) raw')) :=
+  takeArg_dict st raw
+
+/-- `x.update(it)` with a held one-shot iterator whose remaining pairs do not collide with each other: ALL of them are
+    installed on both sides - the first one included (8b557fc) - and the iterator is left empty -/
+theorem otoA_update_iter_installs_all (st st' : OtoSt α) (ret : Ret α) (r i : Nat) (s : OTO α) (ps : List (α × α))
+    (hr : st.regs[r]? = some s) (w : s.WF) (hi : st.iters[i]? = some ps)
+    (hk : (ps.map Prod.fst).Nodup) (hv : (ps.map Prod.snd).Nodup)
+    (h : otoCmdA st (.update r false (.iter i) []) = some (st', ret)) :
+    st'.regs[r]? = some (s.update ps) ∧ (∀ p ∈ ps, p ∈ (s.update ps).fwd ∧ swap p ∈ (s.update ps).inv) ∧
+    st'.iters[i]? = some [] :=
+  update_iter_installs_all st st' ret r i s ps hr w hi hk hv h
+
+/-! non-vacuity: an iterator of three pairs, one taken by the caller, passed to `update` (two pairs land), passed
+    again to another instance's constructor (nothing left); a dict argument written with key 1 twice delivers
+    `[(1, 6), (2, 6)]`, so `2: 6` evicts `1: 6` (the raw list applied in order would end with `1: 6`) -/
+example : otoRunA (OtoSt.empty : OtoSt Nat)
+    [.new .none [], .mkIter [(1, 2), (3, 4), (5, 6)], .next 0, .update 0 false (.iter 0) [(7, 8)], .new (.iter 0) [],
+     .update 0 true (.dict [(1, 5), (2, 6), (1, 6)]) []]
+    = some ⟨[⟨[(3, 4), (5, 6), (7, 8), (6, 2)], [(4, 3), (6, 5), (8, 7), (2, 6)]⟩, ⟨[], []⟩], [[]]⟩ := by decide
+example : takeArg (⟨[], [[(3, 4), (5, 6)]]⟩ : OtoSt Nat) (.iter 0) = some ([(3, 4), (5, 6)], [[]]) := by decide
+
 /-! ## ManyToMany
 
 A history: constructors from pairs / mapping / another instance (either side), and
 `add`, `remove`, `__setitem__`, `__delitem__`, `update` (pairs, mapping, or another
 ManyToMany - also the instance itself or its own inverse), `replace`, through either side. -/
+
+/-- ManyToMany is modelled as a class of its own (two dicts of sets, six mutators): that is only right while it
+    inherits no mutating dict method from a builtin container - every one it has is a Python function of the class
+    (`Generated.m2mForeignMutators` is regenerated from the evaluated class on every run) -/
+theorem m2m_no_foreign_mutators : Generated.m2mForeignMutators = [] := by decide
 
 /-- MAIN: after any history every instance satisfies the invariant (both dicts have unique keys,
     no empty and no duplicated set element, `v ∈ data[k] ↔ k ∈ inv[v]`) -/
@@ -230,6 +339,21 @@ theorem m2m_isolation (regs regs' : List (M2M α)) (c : M2MCmd α) (ret : Ret α
     regs'[j]? = regs[j]? :=
   m2mCmd_isolated hc j hj ht ht2
 
+/-- `x.inv.add(v, k)` is `x.add(k, v)`, `x.inv.remove(v, k)` is `x.remove(k, v)` - same dicts, same KeyError -/
+theorem m2m_add_remove_through_inv (s : M2M α) (w : s.WF) (k v : α) :
+    s.stepSide true (.add v k) = s.stepSide false (.add k v) ∧
+    s.stepSide true (.remove v k) = s.stepSide false (.remove k v) := by
+  constructor
+  · rfl
+  · have t := w.transpose k v
+    by_cases h : v ∈ getSet k s.data
+    · have h' := t.1 h
+      simp [M2M.stepSide, M2M.step, M2M.remove, M2M.flip, M2M.removeRaw, h, h']
+    · have h' : ¬ k ∈ getSet v s.inv := fun x => h (t.2 x)
+      simp [M2M.stepSide, M2M.step, M2M.remove, M2M.flip, h, h']
+example : (M2M.empty.updatePairs [(1, 5), (2, 5)] : M2M Nat).stepSide true (.remove 5 1) = (⟨[(2, [5])], [(5, [2])]⟩, .none) ∧
+    ((M2M.empty.updatePairs [(1, 5), (2, 5)] : M2M Nat).stepSide true (.remove 5 7)).2 = .err .KeyError := by decide
+
 /-! what each mutator does to the relation (forward side; the inverse side follows by the invariant) -/
 
 theorem m2m_add_spec (s : M2M α) (k v a x : α) :
@@ -261,6 +385,18 @@ theorem m2m_delitem_spec (s : M2M α) (k a x : α) (hk : hasKey k s.data = true)
   show x ∈ getSet a (erase k s.data) ↔ _
   rw [getSet_erase]; split <;> simp_all
 
+/-- `update(pairs)` / `update(mapping)` (and each `add` of it): the union with the pairs given -/
+theorem m2m_update_pairs_spec (s : M2M α) (ps : List (α × α)) (a x : α) :
+    x ∈ getSet a (s.updatePairs ps).data ↔ x ∈ getSet a s.data ∨ (a, x) ∈ ps :=
+  M2M.updatePairs_data s ps a x
+
+/-- the constructors: `ManyToMany(pairs)` yields exactly the pairs given, `ManyToMany(other)` exactly the pairs of
+    `other` (in fresh set objects: `hm2m_separation` / `hm2m_isolation`) -/
+theorem m2m_ctor_spec (ps : List (α × α)) (o : M2M α) (wo : o.WF) (a x : α) :
+    ((a, x) ∈ iteritems (M2M.empty.updatePairs ps : M2M α).data ↔ (a, x) ∈ ps) ∧
+    ((a, x) ∈ iteritems (M2M.empty.updateFrom o).data ↔ (a, x) ∈ iteritems o.data) :=
+  ⟨M2M.ctor_pairs ps a x, M2M.ctor_from wo a x⟩
+
 /-- `replace(k, nk)` renames `k` to `nk` in every pair, merging into pairs `nk` already has (the fixed code) -/
 theorem m2m_replace_spec (s : M2M α) (w : s.WF) (k nk a x : α) :
     x ∈ getSet a (s.replace k nk).data ↔ (a ≠ k ∧ x ∈ getSet a s.data) ∨ (a = nk ∧ x ∈ getSet k s.data) :=
@@ -270,6 +406,83 @@ theorem m2m_replace_spec (s : M2M α) (w : s.WF) (k nk a x : α) :
 theorem m2m_update_spec (s o : M2M α) (wo : o.WF) (a x : α) :
     x ∈ getSet a (s.updateFrom o).data ↔ x ∈ getSet a s.data ∨ x ∈ getSet a o.data :=
   M2M.updateFrom_data wo a x
+
+/-- a call made through `.inv` does to the relation, read transposed, what the same call made through the object does
+    to the relation: `x` is under `a` afterwards iff `a` is under `x` in what `op` makes of the inverse object -/
+theorem m2m_through_inv_transposed (s : M2M α) (w : s.WF) (op : M2MOp α) (a x : α) :
+    x ∈ getSet a (s.stepSide true op).1.data ↔ a ∈ getSet x (s.flip.step op).1.data := by
+  have w2 := w.flip.step op
+  show x ∈ getSet a (s.flip.step op).1.inv ↔ _
+  exact (w2.transpose x a).symm
+
+/-- hence: `del x.inv[v]` drops exactly the pairs whose value is `v`; `x.inv[v] = ks` makes `ks` the keys holding `v`
+    and touches no other value; `x.inv.replace(v, nv)` renames the value `v` to `nv` in every pair -/
+theorem m2m_mutators_through_inv (s : M2M α) (w : s.WF) (v nv : α) (ks : List α) (a x : α) :
+    (hasKey v s.inv = true → (x ∈ getSet a (s.stepSide true (.delitem v)).1.data ↔ x ≠ v ∧ x ∈ getSet a s.data)) ∧
+    (x ∈ getSet a (s.stepSide true (.setitem v ks)).1.data ↔ if x = v then a ∈ ks else x ∈ getSet a s.data) ∧
+    (x ∈ getSet a (s.stepSide true (.replace v nv)).1.data ↔
+      (x ≠ v ∧ x ∈ getSet a s.data) ∨ (x = nv ∧ v ∈ getSet a s.data)) := by
+  have wf := w.flip
+  have t : ∀ p q : α, p ∈ getSet q s.inv ↔ q ∈ getSet p s.data := fun p q => (w.transpose p q).symm
+  refine ⟨fun hk => ?_, ?_, ?_⟩
+  · rw [m2m_through_inv_transposed s w]
+    show a ∈ getSet x (s.flip.delitem v).1.data ↔ _
+    rw [m2m_delitem_spec s.flip v x a hk]
+    show x ≠ v ∧ a ∈ getSet x s.inv ↔ _
+    rw [t]
+  · rw [m2m_through_inv_transposed s w]
+    show a ∈ getSet x (s.flip.setitem v ks).data ↔ _
+    rw [m2m_setitem_spec s.flip wf v ks x a]
+    split
+    · rfl
+    · show a ∈ getSet x s.inv ↔ _
+      rw [t]
+  · rw [m2m_through_inv_transposed s w]
+    show a ∈ getSet x (s.flip.replace v nv).data ↔ _
+    rw [m2m_replace_spec s.flip wf v nv x a]
+    show (x ≠ v ∧ a ∈ getSet x s.inv) ∨ (x = nv ∧ a ∈ getSet v s.inv) ↔ _
+    rw [t, t]
+/-- non-vacuity: `del x.inv[5]` on pairs (1,5) (2,5) (2,6) leaves (2,6); `x.inv[6] = [1]` moves value 6 from key 2 to key 1 -/
+example : ((M2M.empty.updatePairs [(1, 5), (2, 5), (2, 6)] : M2M Nat).stepSide true (.delitem 5)).1 = ⟨[(2, [6])], [(6, [2])]⟩ ∧
+    hasKey 5 (M2M.empty.updatePairs [(1, 5), (2, 5), (2, 6)] : M2M Nat).inv = true ∧
+    ((M2M.empty.updatePairs [(1, 5), (2, 5), (2, 6)] : M2M Nat).stepSide true (.setitem 6 [1])).1
+      = ⟨[(1, [5, 6]), (2, [5])], [(5, [1, 2]), (6, [1])]⟩ := by decide
+
+/-! the readers (`m[k]`, `get`, `in`, `len`, `keys()` / `iter`) - round 3: inside the model, compared by the
+    correspondence on every dump -/
+
+/-- after any history the readers of an instance tell the same story as `iteritems()`: `v in m.get(k)` iff the pair is
+    there; `k in m` iff `k` has a pair (no empty entry is ever visible); `m[k]` raises KeyError exactly for `k not in m`
+    and is otherwise the non-empty `m.get(k)`; `keys()` lists each key once, `len(m)` counts them -/
+theorem m2m_readers_agree (cmds : List (M2MCmd α)) (regs : List (M2M α))
+    (h : m2mRun [] cmds = some regs) (s : M2M α) (hs : s ∈ regs) (k v : α) :
+    (v ∈ s.get k ↔ (k, v) ∈ iteritems s.data) ∧
+    (s.contains k = true ↔ ∃ x, (k, x) ∈ iteritems s.data) ∧
+    (s.getitem k = none ↔ s.contains k = false) ∧
+    (∀ vs, s.getitem k = some vs → vs = s.get k ∧ vs ≠ [] ∧ vs.Nodup ∧ s.contains k = true) ∧
+    s.keysList.Nodup ∧ s.len = s.keysList.length ∧ (k ∈ s.keysList ↔ s.contains k = true) := by
+  have w := m2m_invariant cmds regs h s hs
+  have ks := M2M.keys_spec w
+  exact ⟨M2M.mem_get w k v, M2M.contains_iff w k, (M2M.getitem_spec w k).1, (M2M.getitem_spec w k).2,
+    ks.1, ks.2.1, ks.2.2.1 k⟩
+
+/-- … and the readers of `.inv` are those of the instance, transposed: `k in m.inv.get(v)` iff `v in m.get(k)`;
+    `v in m.inv` iff some key holds `v` -/
+theorem m2m_readers_transposed (cmds : List (M2MCmd α)) (regs : List (M2M α))
+    (h : m2mRun [] cmds = some regs) (s : M2M α) (hs : s ∈ regs) (k v : α) :
+    (k ∈ s.flip.get v ↔ v ∈ s.get k) ∧ (s.flip.contains v = true ↔ ∃ a, v ∈ s.get a) :=
+  M2M.readers_transposed (m2m_invariant cmds regs h s hs) k v
+
+/-- a reader through `.inv.inv` is the reader of the instance -/
+theorem m2m_readers_inv_inv (s : M2M α) (k : α) :
+    s.flip.flip.get k = s.get k ∧ s.flip.flip.contains k = s.contains k ∧ s.flip.flip.len = s.len := ⟨rfl, rfl, rfl⟩
+
+/-! non-vacuity: the readers on a state with a shared value and a key that was emptied and dropped -/
+example : m2mRun ([] : List (M2M Nat)) [.new [(1, 5), (2, 5), (2, 6)], .op 0 false (.remove 1 5)]
+    = some [⟨[(2, [5, 6])], [(5, [2]), (6, [2])]⟩] := by decide
+example : let s : M2M Nat := ⟨[(2, [5, 6])], [(5, [2]), (6, [2])]⟩
+    s.get 2 = [5, 6] ∧ s.get 1 = [] ∧ s.getitem 1 = none ∧ s.contains 1 = false ∧ s.contains 2 = true ∧ s.len = 1 ∧
+    s.keysList = [2] ∧ s.flip.get 5 = [2] ∧ s.flip.len = 2 := by decide
 
 /-! non-vacuity: replace onto an existing key, update from the own inverse, then mutate the source -/
 example : m2mRun ([] : List (M2M Nat))
@@ -306,16 +519,31 @@ theorem hm2m_isolation (cmds : List (M2MCmd α)) (st st' : HState α) (c : M2MCm
   obtain ⟨h1, h2⟩ := (hm2mCmd_sep (hm2m_separation cmds st h) hc).2.2 j s ht hj
   exact ⟨h1, h2, abs_congr _ _ _ h2⟩
 
-/-- every mutator through either side, the constructors, and `update(other)` from ANOTHER instance do by value
-    exactly what the by-value model does (same dicts, same order, same return value / KeyError).
-    FULL statement wanted: for every command.  Proved with the decidable hypothesis `c.NoSelfUpdate`
-    (`c` is not `x.update(x)` / `x.update(x.inv)`): there loop 2 reads what loop 1 has just written, the by-value
-    model reads the old value; the two agree as sets of pairs (compared on every run by the correspondence: flag `V1`)
-    but not as lists -/
-theorem hm2m_refines_partial (cmds : List (M2MCmd α)) (st : HState α)
-    (h : hm2mRun HState.empty cmds = some st) (hns : ∀ c ∈ cmds, c.NoSelfUpdate) :
-    m2mRun [] cmds = some st.abs :=
-  hm2mRun_sim cmds HSep.empty hns h
+/-- MAIN (refinement, FULL - round 2 had `hm2m_refines_partial` with the hypothesis `NoSelfUpdate`): for EVERY history,
+    self-updates `x.update(x)` / `x.update(x.inv)` included, the heap-level machine (set objects with identities, every
+    statement followed literally, the other instance's cells read live) shows by value exactly what the by-value
+    machine shows: the same dicts in the same order, register by register (return values / KeyError: `hm2m_refines_cmd`) -/
+theorem hm2m_refines (cmds : List (M2MCmd α)) (st : HState α)
+    (h : hm2mRun HState.empty cmds = some st) : m2mRun [] cmds = some st.abs :=
+  hm2mRun_sim cmds HSep.empty (fun _ hm => by simp [HState.abs, HState.empty] at hm) h
+
+/-- one command, from any state a history can reach: same registers by value afterwards, same return value / KeyError -/
+theorem hm2m_refines_cmd (cmds : List (M2MCmd α)) (st st' : HState α) (c : M2MCmd α) (ret : Ret α)
+    (h : hm2mRun HState.empty cmds = some st) (hc : hm2mCmd st c = some (st', ret)) :
+    m2mCmd st.abs c = some (st'.abs, ret) :=
+  hm2mCmd_sim (hm2mRun_sep cmds HSep.empty h)
+    (hm2mRun_wf cmds HSep.empty (fun _ hm => by simp [HState.abs, HState.empty] at hm) h) hc
+
+/-- what the by-value machine does for a self-update: `x.update(x)` leaves the register as it is, `x.update(x.inv)`
+    (through either side) makes it `selfMerge` - whose content `hm2m_self_update_spec` describes -/
+theorem m2m_self_update_cmd (regs : List (M2M α)) (r : Nat) (s : M2M α) (side : Bool) (hr : regs[r]? = some s) :
+    m2mCmd regs (.updateFrom r side r side) = some (regs, .none) ∧
+    m2mCmd regs (.updateFrom r side r (!side)) = some (regs.set r ((selfMerge (s.side side)).side side), .none) := by
+  have hf : ((!side) = side) = False := by cases side <;> simp
+  constructor
+  · simp only [m2mCmd, hr, M2M.updateFromReg, decide_true, if_true]
+    rw [set_same hr]
+  · simp only [m2mCmd, hr, M2M.updateFromReg, decide_true, if_true, hf, if_false]
 
 /-- MAIN (heap level): after ANY history - self-updates `x.update(x)` / `x.update(x.inv)` included, which are
     handled on their own (`x.update(x)` changes nothing; `x.update(x.inv)` is `selfMerge`) - every instance, read
@@ -339,6 +567,19 @@ theorem hm2m_same_pairs_transposed (cmds : List (M2MCmd α)) (st : HState α)
   rw [mem_iteritems w.gd, mem_iteritems w.gi]
   exact w.transpose k v
 
+/-- … and at heap level the readers (which dereference the instance's own set objects) agree with `iteritems()` and
+    with the readers of the other side, after any history -/
+theorem hm2m_readers_agree (cmds : List (M2MCmd α)) (st : HState α)
+    (h : hm2mRun HState.empty cmds = some st) (s : HInst α) (hs : s ∈ st.regs) (k v : α) :
+    (v ∈ (s.abs st.heap).get k ↔ (k, v) ∈ iteritems (deref st.heap s.data)) ∧
+    ((s.abs st.heap).contains k = true ↔ ∃ x, (k, x) ∈ iteritems (deref st.heap s.data)) ∧
+    ((s.abs st.heap).getitem k = none ↔ (s.abs st.heap).contains k = false) ∧
+    (k ∈ (s.abs st.heap).flip.get v ↔ v ∈ (s.abs st.heap).get k) ∧
+    (s.abs st.heap).len = (s.abs st.heap).keysList.length := by
+  have w := hm2m_invariant cmds st h s hs
+  exact ⟨M2M.mem_get w k v, M2M.contains_iff w k, (M2M.getitem_spec w k).1, (M2M.readers_transposed w k v).1,
+    (M2M.keys_spec w).2.1⟩
+
 /-- what `x.update(x.inv)` leaves in `x`: the union of the relation and its transpose -/
 theorem hm2m_self_update_spec (A : M2M α) (w : A.WF) (a x : α) :
     (selfMerge A).WF ∧ (x ∈ getSet a (selfMerge A).data ↔ x ∈ getSet a A.data ∨ x ∈ getSet a A.inv) := by
@@ -358,14 +599,70 @@ example : hm2mRun (HState.empty : HState Nat)
 example : (hm2mRun (HState.empty : HState Nat)
     [.new [(1, 5), (2, 6)], .updateFrom 0 false 0 true, .updateFrom 0 true 0 true, .op 0 true (.remove 5 1)]).map HState.abs
     = some [⟨[(2, [6]), (5, [1]), (6, [2])], [(6, [2]), (1, [5]), (2, [6])]⟩] := by decide
-/-- the hypothesis `NoSelfUpdate` on a history that copies and cross-updates -/
-example : ∀ c ∈ ([.new [(1, 5)], .newFrom 0 true, .updateFrom 1 false 0 true, .op 0 true (.delitem 5)] : List (M2MCmd Nat)),
-    c.NoSelfUpdate := by decide
+/-- the two machines on that history, as `hm2m_refines` says: identical dicts, order included -/
+example : m2mRun ([] : List (M2M Nat))
+    [.new [(1, 5), (2, 6)], .updateFrom 0 false 0 true, .updateFrom 0 true 0 true, .op 0 true (.remove 5 1)]
+    = some [⟨[(2, [6]), (5, [1]), (6, [2])], [(6, [2]), (1, [5]), (2, [6])]⟩] := by decide
 /-- what the invariant excludes, and the heap-level machine can express: an instance 1 that stores instance 0's
     set objects (the defect fixed in 5d85018) - `x0.add(6, 4)` then shows up in instance 1, on one side only -/
 example : (hm2mCmd (⟨[[2], [6]], [⟨[(6, 0)], [(2, 1)]⟩, ⟨[(6, 0)], [(2, 1)]⟩]⟩ : HState Nat) (.op 0 false (.add 6 4))).map
       (fun p => p.1.abs)
     = some [⟨[(6, [2, 4])], [(2, [6]), (4, [6])]⟩, ⟨[(6, [2, 4])], [(2, [6])]⟩] := by decide
+
+/-! ## ManyToMany, caller level (`Args.lean`, round 3)
+
+Arguments as the caller built them: a mapping is walked by `keys()` / `[k]` (each key once, last value), a list or
+iterator of pairs in one lazy pass, another ManyToMany by the two-loop merge; one-shot iterators are objects the caller
+may keep, consume from and pass again.  The lowering looks only at the iterator store, so both machines run the same
+lowered history. -/
+
+/-- MAIN at caller level, by value: after any caller-level history every instance satisfies the invariant - the two
+    sides hold the same pairs transposed, no empty entry -/
+theorem m2mA_invariant (cmds : List (M2MCmdA α)) (st : M2MSt α) (h : m2mRunA M2MSt.empty cmds = some st) :
+    ∀ s ∈ st.regs, s.WF ∧ (∀ k v, (k, v) ∈ iteritems s.data ↔ (v, k) ∈ iteritems s.inv) ∧
+      (∀ p ∈ s.data, p.2 ≠ []) ∧ (∀ p ∈ s.inv, p.2 ≠ []) := by
+  obtain ⟨cs', _, hr⟩ := m2mRunA_lower cmds h
+  intro s hs
+  have w := m2m_invariant cs' st.regs hr s hs
+  exact ⟨w, m2m_same_pairs_transposed cs' st.regs hr s hs, w.gd.ne_of_mem, w.gi.ne_of_mem⟩
+
+/-- MAIN at caller level, heap: the heap-level machine (set objects with identities) driven by a caller-level history
+    shows by value exactly what the by-value machine shows, leaves the iterators in the same state, and no set object
+    is referenced twice -/
+theorem hm2mA_refines (cmds : List (M2MCmdA α)) (s : HM2MSt α) (h : hm2mRunA HM2MSt.empty cmds = some s) :
+    m2mRunA M2MSt.empty cmds = some ⟨s.st.abs, s.iters⟩ ∧ HSep s.st := by
+  obtain ⟨cs', hl, hr⟩ := hm2mRunA_lower cmds h
+  exact ⟨m2mRunA_of_lower cmds [] _ [] _ cs' hl (hm2m_refines cs' s.st hr), hm2m_separation cs' s.st hr⟩
+
+/-- a held one-shot iterator gives what it has left to the one pass made over it and is empty afterwards -/
+theorem m2mA_iter_one_shot (its its' : List (List (α × α))) (i : Nat) (ps : List (α × α))
+    (h : takePairs its (.iter i) = some (ps, its')) :
+    its[i]? = some ps ∧ its'[i]? = some [] ∧ (∀ j, j ≠ i → its'[j]? = its[j]?) ∧
+    takePairs its' (.iter i) = some ([], its') :=
+  takePairs_iter_one_shot its its' i ps h
+
+/-- what the argument kinds lower to: a mapping is `add(k, m[k])` for each key once (last value), another ManyToMany
+    the two-loop merge, `ManyToMany(other)` the merge into a fresh instance -/
+theorem m2mA_lowering (its : List (List (α × α))) (r r2 : Nat) (side side2 : Bool) (raw : List (α × α)) :
+    lowerM its (.update r side (.dict raw)) = some (some (.op r side (.update (putAll [] raw))), its) ∧
+    lowerM its (.update r side (.pairs raw)) = some (some (.op r side (.update raw)), its) ∧
+    lowerM its (.update r side (.reg r2 side2)) = some (some (.updateFrom r side r2 side2), its) ∧
+    lowerM its (.new (.reg r2 side2)) = some (some (.newFrom r2 side2), its) ∧
+    lowerM its (.new (.dict raw)) = some (some (.new (putAll [] raw)), its) := ⟨rfl, rfl, rfl, rfl, rfl⟩
+
+/-! non-vacuity: a mapping written with key 1 twice adds only `(1, 6)`, the same pairs as a list add both; an iterator
+    of three pairs, one taken by the caller, then passed to `update` and again to a constructor (nothing left); a copy
+    through the inverse side, updated from itself - on both machines -/
+example : m2mRunA (M2MSt.empty : M2MSt Nat)
+    [.new (.dict [(1, 5), (1, 6)]), .new (.pairs [(1, 5), (1, 6)]), .mkIter [(7, 8), (7, 9), (2, 9)], .next 0,
+     .update 0 true (.iter 0), .new (.iter 0), .update 1 false (.reg 1 true)]
+    = some ⟨[⟨[(1, [6]), (9, [7, 2])], [(6, [1]), (7, [9]), (2, [9])]⟩,
+             ⟨[(1, [5, 6]), (5, [1]), (6, [1])], [(5, [1]), (6, [1]), (1, [5, 6])]⟩, ⟨[], []⟩], [[]]⟩ := by decide
+example : (hm2mRunA (HM2MSt.empty : HM2MSt Nat)
+    [.new (.dict [(1, 5), (1, 6)]), .new (.pairs [(1, 5), (1, 6)]), .mkIter [(7, 8), (7, 9), (2, 9)], .next 0,
+     .update 0 true (.iter 0), .new (.iter 0), .update 1 false (.reg 1 true)]).map (fun s => (s.st.abs, s.iters))
+    = some ([⟨[(1, [6]), (9, [7, 2])], [(6, [1]), (7, [9]), (2, [9])]⟩,
+             ⟨[(1, [5, 6]), (5, [1]), (6, [1])], [(5, [1]), (6, [1]), (1, [5, 6])]⟩, ⟨[], []⟩], [[]]) := by decide
 
 /-! ## FrozenDict
 
@@ -373,7 +670,13 @@ example : (hm2mCmd (⟨[[2], [6]], [⟨[(6, 0)], [(2, 1)]⟩, ⟨[(6, 0)], [(2, 
 run; the model blocks a mutator iff its name is in that list, so the next two theorems re-check
 the source's table. -/
 
-/-- every mutating `dict` method is bound to the raiser in the class body -/
+/-- the model's list of mutating dict methods is complete for the interpreter the check runs under: every method
+    `dict` has there is either one of the eight mutators or a known non-mutator, and all eight exist -/
+theorem dict_methods_classified :
+    (∀ n ∈ Generated.dictMethods, n ∈ dictMutators ∨ n ∈ dictNonMutators) ∧
+    (∀ n ∈ dictMutators, n ∈ Generated.dictMethods) ∧ (∀ n ∈ dictMutators, n ∉ dictNonMutators) := by decide
+
+/-- every mutating `dict` method resolves, on the evaluated class, to a function that does nothing but raise -/
 theorem fd_all_mutators_blocked : ∀ n ∈ dictMutators, n ∈ Generated.frozenBlocked := by decide
 
 /-- every mutating dict operation raises TypeError and leaves the FrozenDict unchanged -/
